@@ -35,7 +35,7 @@ CHECKS = [
          text='Order and exactly-once come from the queue model; the --size loop is model-checked with and without the limit being passed down; every N on generated Prince grammars is run on the real code and judged by the TLA+ trace specs.',
          note='As C01/C04. Prince grammars are generated (float and dyadic), not only trainer-produced.'),
     dict(pid='C20', cat=MC, design='5/C20',
-         technique='TLA+ I-layer EditRules.tla (label arithmetic, three-way keep condition, terminal-set filter) model-checked by TLC against the P-layer that judges structures by the true lengths of the strings their labels stand for; real edit_rules.py subprocess runs + real guesser on the result validated by TrEdit (survivors identical and in order, only failing removed, kept pass, guess lengths, other files / --copy source untouched)',
+         technique='TLA+ I-layer EditRules.tla (label arithmetic, three-way keep condition, terminal-set filter) model-checked by TLC against the P-layer that judges structures by the true lengths of the strings their labels stand for; real edit_rules.py subprocess runs + real guesser on the result validated by TrEdit (survivors identical and in order, only failing removed, kept pass, guess lengths, other files / --copy source untouched); the shipped Default ruleset through eight edits (guess-length span from the value lengths behind every label)',
          text='The filter logic is exhaustively checked on the model for all min/max pairs, terminal sets and structure lists in bound (with the open finding C20-F12 as a named exclusion that must fail without it); the real tool is run on generated rulesets with random filter combinations.',
          note='Regex semantics are Python re (booleans in the trace); digests compared in Python; the fate of the Markov structure under a length filter is treated as unspecified.'),
     dict(pid='C10', cat=MC, design='5/C10',
@@ -55,7 +55,7 @@ CHECKS = [
          text='Every interleaving of a small session is explored on the model; on the code, deterministic gate-to-gate schedules place the keyboard thread\'s steps at every position of the main loop, and the recorded streams are accepted only if they are an unaltered contiguous part of the expected stream, not shortened without a quit, stopped at a legal point, and resumable to exactly the remainder.',
          note='Gates are installed from outside (no source hooks); a thread counts as dead once its function returned. Rulesets without probability ties (ties are C08). Status-report text is not checked.'),
     dict(pid='C15', cat=MC, design='5/C15',
-         technique='TLC on Session.tla (OMEN cut, stale option, last pre-terminal) + real CrackingSession.run histories that quit inside a Markov level at every position j followed by further quit/resume cycles (inside the remainder, outside OMEN, inside the replay) validated by TrSession; real MarkovCracker save_session/load_session at every cut j validated by TrOmen (resume = suffix of the uninterrupted sequence)',
+         technique='TLC on Session.tla (OMEN cut, stale option, last pre-terminal) + real CrackingSession.run histories that quit inside a Markov level at every position j followed by further quit/resume cycles (inside the remainder, outside OMEN, inside the replay) validated by TrSession; real MarkovCracker save_session/load_session at every cut j validated by TrOmen (resume = suffix of the uninterrupted sequence); the same histories with one OS process per session under different string-hash seeds',
          text='All cut positions inside each Markov level of generated rulesets, with later quits, are run on the real session code with the real pickle files; TLC accepts a history only if each session continues exactly where the previous one stopped (C08\'s tied-group replay of a last Markov level allowed).',
          note='The scripted keyboard thread sets should_exit after the n-th printed guess. Fresh Optimizer after resume.'),
     dict(pid='C07', cat=MC, design='5/C07',
@@ -63,7 +63,7 @@ CHECKS = [
          text='The class partition covers all 0x110000 code points; the model is exhaustive over class strings given the measured reader behaviour; the verdict comes from real write/read round trips through all four loaders in utf-8, iso-8859-1, cp1251 and utf-16.',
          note='Reader behaviour is measured on every member of the small classes and on sampled members of ORD/NONBMP. The neutral reader (LF-only, last TAB) is the statement of what the format means.'),
     dict(pid='C19', cat=MC, design='5/C19',
-         technique='TLA+ Reader.tla (records over character classes, codec physical-line splitting, count prefix, $HEX[], check_valid, yield n times) model-checked by TLC: every encoding of every file in bound yields the sequence the file means; every single-record file of the model space and random multi-record files are instantiated (utf-8, iso-8859-1, cp1251) as plain / CRLF / hex / count-prefixed / count+hex / mixed files and read by the real TrainerFileInput (three passes); TLC compares the yielded sequences (TrLine seq) and whole real trainings file by file (TrLine same)',
+         technique='TLA+ Reader.tla (records over character classes, codec physical-line splitting, count prefix, $HEX[], check_valid, yield n times) model-checked by TLC: every encoding of every file in bound yields the sequence the file means; every single-record file of the model space and random multi-record files are instantiated (utf-8, iso-8859-1, cp1251) as plain / CRLF / hex / count-prefixed / count+hex / mixed files and read by the real TrainerFileInput (three passes); TLC compares the yielded sequences (TrLine seq) and whole real trainings file by file (TrLine same); autodetected encoding compared across plain / $HEX[] and LF / CRLF spellings',
          text='Equivalence of encodings and non-leakage of skipped records is exhaustive on the model and checked on the real reader for the same space; ruleset identity is checked on real trainings of plain vs hex vs count-prefixed lists.',
          note='The meaning of a generated record (valid / skipped) is fixed by construction. Control characters generated: C0, NEL, LS, PS (DEL / C1 are not claimed). Digests computed in Python.'),
     dict(pid='C16', cat=MC, design='5/C16',
@@ -75,15 +75,15 @@ CHECKS = [
          text='Exhaustive over abstract strings for the exact stages; on real parses every stage transition and every counter update is judged by the TLA+ P-layer.',
          note='Keyboard / e-mail / website detectors are judged by soundness of what they label. Character attributes come from Python str methods. Open finding C05-F11 (U+0130).'),
     dict(pid='C06', cat=MC, design='5/C06',
-         technique='TLA+ Train.tla (Counter.most_common as stable sort, count/total, Markov pseudo-count N*(1/coverage-1) in scaled integers, coverage 0 / 1 cases, e-mail / website structures only in the raw list) model-checked by TLC for all small tallies x coverages; every saved list of real trainings (all terminal, mask, structure, raw, prince, provider and host lists) is compared by TLC with the tallies captured from the trainer memory (TrTrain list / grammar), and two trainings of the same input are compared file by file (TrTrain same)',
+         technique='TLA+ Train.tla (Counter.most_common as stable sort, count/total, Markov pseudo-count N*(1/coverage-1) in scaled integers, coverage 0 / 1 cases, e-mail / website structures only in the raw list) model-checked by TLC for all small tallies x coverages; every saved list of real trainings (all terminal, mask, structure, raw, prince, provider and host lists) is compared by TLC with the tallies captured from the trainer memory (TrTrain list / grammar), and two trainings of the same input are compared file by file (TrTrain same); trainer.py command line with thirteen option sets compared with run_trainer on the same values',
          text='Each list: every tallied item exactly once, probability = count/total, most to least probable, sums to the total; structure list coverage clauses; determinism.',
          note='p == count/total is checked in binary64 in Python (structure list: 1e-12 against the exact rational); counts passed to TLC as integers (scaled by the coverage numerator).'),
     dict(pid='C03', cat=MC, design='5/C03',
-         technique='TLA+ Compose.tla (trainer -> guesser -> scorer on one training list, exact rational probabilities) model-checked by TLC for every list in bound (TrainingReproduced, SumsToOne); every list of that space sampled through the real trainer + guesser and judged by TrCompose; Loader.tla insertion loop model-checked and every model file loaded by the real loader (TrLoader insert); real trainings of generated lists (words, three-word multi-words with per-word capitalisation, digits, years, symbols, walks, context strings, spaces, Cyrillic / Greek / Latin-1 letters, non-BMP symbols, duplicates; coverage, n-gram size, alphabet size and encoding varied) followed by the real guesser with --skip_brute run to exhaustion; TLC checks that every supported training password (segmentation recorded with the real detectors, no e-mail / website segment) is among the emitted guesses (TrTrain lang); probability sum compared in Python',
+         technique='TLA+ Compose.tla (trainer -> guesser -> scorer on one training list, exact rational probabilities) model-checked by TLC for every list in bound (TrainingReproduced, SumsToOne); every list of that space sampled through the real trainer + guesser and judged by TrCompose; Loader.tla insertion loop model-checked and every model file loaded by the real loader (TrLoader insert); real trainings of generated lists (words, three-word multi-words with per-word capitalisation, digits, years, symbols, walks, context strings, spaces, Cyrillic / Greek / Latin-1 letters, non-BMP symbols, duplicates; coverage, n-gram size, alphabet size and encoding varied) followed by the real guesser with --skip_brute run to exhaustion; TLC checks that every supported training password (segmentation recorded with the real detectors, no e-mail / website segment) is among the emitted guesses (TrTrain lang); probability sum compared in Python; membership decided by matching against the loaded grammar when a trained language is too large to enumerate',
          text='The composition trainer -> guesser is model-checked exhaustively on small lists (Compose.tla) and the real tools are run on that space (TrCompose); end-to-end on real inputs: Segment o Train o Loader o PTQueue o Expand, whose parts are model-checked separately (C05, C06, C14, C02, C04).',
          note='Model-checked on the small composition space; beyond it inputs are sampled. Domain: letters with one-to-one case mapping (as stated). Coverage 0 is outside C03 (by C06 the grammar then holds only the Markov structure).'),
     dict(pid='C13', cat=MC, design='5/C13',
-         technique='TLA+ Compose.tla (PromiseKept, ScoreOfGuess, OnlyOwnStructure over every training list x candidate in bound, exact rationals) and Scorer.tla (case mappings) model-checked by TLC; lists of the model space run through the real trainer, guesser and scorer and judged by TrCompose (exact rational comparison); real trainings, the real PCFGPasswordScorer and the real guesser language table (every non-Markov pre-terminal expanded); for every candidate string (training passwords, guesser output, one-edit perturbations, unrelated strings, e-mail / website strings) TLC checks on ranks (floats clustered within 1e-9) that a non-zero score equals the probability of a pre-terminal that emits exactly this string, that e-mail / website strings are classified and scored 0, and that rescoring in another order gives the same result (TrScore)',
+         technique='TLA+ Compose.tla (PromiseKept, ScoreOfGuess, OnlyOwnStructure over every training list x candidate in bound, exact rationals) and Scorer.tla (case mappings) model-checked by TLC; lists of the model space run through the real trainer, guesser and scorer and judged by TrCompose (exact rational comparison); real trainings, the real PCFGPasswordScorer and the real guesser language table (every non-Markov pre-terminal expanded); for every candidate string (training passwords, guesser output, one-edit perturbations, unrelated strings, e-mail / website strings) TLC checks on ranks (floats clustered within 1e-9) that a non-zero score equals the probability of a pre-terminal that emits exactly this string, that e-mail / website strings are classified and scored 0, and that rescoring in another order gives the same result (TrScore); real password_scorer.py output and a second scorer with a cut-off compared with the library scores; on the shipped rulesets the guesser side is decided by matching each string against the loaded grammar',
          text='The promise is an invariant of the composition model (Compose.tla, Scorer.tla) checked exhaustively in bound; the real scorer and guesser are run on the model space (exact rationals) and on real rulesets over thousands of candidates per run.',
          note='Model-checked on the small composition space; beyond it candidates are sampled. Open finding C13-F15 (letters with non-invertible case mapping).'),
 ]
